@@ -19,10 +19,25 @@ func (m *c14Model) isOrd(g *c14Graph, v *c14Val) bool {
 	return v != nil && o != nil && v.key == o.key
 }
 
-// isField: v is `ord.f` for the ordering of graph g.
+// isField: v is `ord.f` for the ordering of graph g, or `ord.g.f` through struct fields of this package the
+// ordering groups its state in.
 func (m *c14Model) isField(g *c14Graph, v *c14Val, f *types.Var) bool {
 	v = c14StripAddr(v)
-	return v != nil && v.k == 'f' && v.obj == types.Object(f) && m.isOrd(g, v.x)
+	if v == nil || v.k != 'f' || v.obj != types.Object(f) {
+		return false
+	}
+	b := c14StripAddr(v.x)
+	for depth := 0; depth < 3 && b != nil; depth++ {
+		if m.isOrd(g, b) {
+			return true
+		}
+		fv, ok := b.obj.(*types.Var)
+		if b.k != 'f' || !ok || fv.Pkg() != m.pk.Types {
+			return false
+		}
+		b = c14StripAddr(b.x)
+	}
+	return false
 }
 
 // isMethodOn: v is a call of method recvType.name on field f of the ordering.
